@@ -3,6 +3,8 @@ import NssVerif.Model.Atmosphere
 import NssVerif.Gen.AtmConsts
 import NssVerif.Lemmas.Atmosphere
 import NssVerif.Lemmas.AtmosphereModel
+import NssVerif.Lemmas.AtmSliver
+import NssVerif.Lemmas.AtmNumeric
 import Mathlib.Tactic.Ring
 import Mathlib.Tactic.Linarith
 import Mathlib.Tactic.Positivity
@@ -16,15 +18,32 @@ import Mathlib.Tactic.IntervalCases
 Theorems about `Model.Atm` instantiated at `ℝ`; the layer table is either arbitrary (with the stated
 hypotheses, bundled in `WellFormed`) or the one regenerated from /repo (`Gen.AtmConsts.layers`).
 
-Proved for all inputs: the geopotential transform pair; the in-layer inverse pairs of both barometric
-branches; positivity and monotonicity of the pressure inside a layer; layer-choice consistency (if the
-forward pressure is strictly above the next tabulated base pressure, the inverse picks the same layer and
-the round trip is EXACT); the same for the regenerated table; the end cases z = ∞ ↔ P = 0; a parametric
-bound on what happens in the sliver where the layer choice differs.
+Proved for all inputs and every well-formed table: the geopotential transform pair; the in-layer inverse pairs
+of both barometric branches; positivity and monotonicity of the pressure inside a layer; what the two selection
+loops return (`layerOfHeight_spec`, `layerOfPressure_spec`); layer-choice consistency (if the forward pressure is
+strictly above the next tabulated base pressure, the inverse picks the same layer and the round trip is EXACT);
+the end cases z = ∞ ↔ P = 0; parametric bounds on what happens where the layer choice differs: the sliver below
+an upward pressure step (`roundtrip_parametric`, `sliver_roundtrip`, `sliver_altitude`), the gap above a downward
+step (`gap_forward`), and the accumulation of upward steps over several boundaries (`base_pressure_chain`,
+`pressure_monotone_up_to_steps`).
 
-Not proved (decided by the correspondence run on the real code, and labelled so in the evidence): the
-numeric clauses "≤ 1e-6 km", "≤ 1e-6 relative", "steps ≤ 3e-7" — they depend on the seven numbers
-ε_j = log(P_{j-1}(H_j)/P_j), which the driver EVALUATES (|ε_j| ≤ 1.41e-7); see `roundtrip_1e6` below.
+Proved for the regenerated table (numeric facts, `Lemmas/AtmNumeric.lean`: artanh-series enclosures of `Real.log`
+at the exact dyadic values of the tabulated doubles, all rational arithmetic by `norm_num`):
+* `boundary_mismatch_enclosures`: each of the seven ε_j = log(P_{j-1}(H_j)/P_j) to 1e-12
+  (max |ε_j| = 1.40680…e-7 at 84.852 km); `boundary_mismatch_le`: |ε_j| ≤ 1.41e-7;
+* `pressure_steps_3e7`, `pressure_step_up_le`: the pressure step at every boundary is ≤ 3e-7 relative;
+* `roundtrip_8e7`, `roundtrip_1e6`: for EVERY real altitude z ∈ [0, 120] km the round trip z → P → z returns an
+  altitude in [z, z + 8e-7 km] — the clause "≤ 1e-6 km" of the property;
+* `inverse_forward_4e8`, `inverse_forward_1e6`: for EVERY real pressure between the pressure of the model top
+  (z = 120 km) and 101325 Pa the round trip P → z → P returns a pressure in [P(1 − 4e-8), P] — the clause
+  "≤ 1e-6 relative";
+* `pressure_positive_generated`, `pressure_nonincreasing_up_to_3e7`: P(z) > 0 on [0, 120] km and
+  P(z₂) ≤ (1 + 3e-7)·P(z₁) for all 0 ≤ z₁ ≤ z₂ ≤ 120 km (across any number of boundaries).
+
+All of this is about the model over ℝ.  Not proved (decided by the correspondence run on the real code, and
+labelled so in the evidence): everything about floating-point rounding (the Float run of the same model is compared
+with the code to 1e-12 on every generated input; the rounding contribution to the round trips is ~1e-13 km, far
+below the 2e-7 km margin left by `roundtrip_8e7`), array/scalar plumbing, and the bit-identity of the two copies.
 -/
 
 open Real ScalarReal Model.Atm AtmLemmas
@@ -310,16 +329,888 @@ theorem pressure_step_le (L : Layers ℝ) (i : Nat) (ε : ℝ) (hPj : 0 < nth L.
   have := (Real.log_le_iff_le_exp h1).mp heps
   rwa [div_le_iff₀ hp] at this
 
-/- FULL STATEMENT of the tolerance clause, NOT PROVED (decided by the correspondence run on the real code):
+/-! ### the sliver below a boundary, complete: layer choice, landing height, altitude error -/
 
+/-- boundaries where the pressure steps DOWN going up have no sliver: every height of layer `i` (up to and
+including the boundary) has a pressure strictly above the next tabulated base pressure -/
+theorem no_sliver {L : Layers ℝ} {n : Nat} (W : WellFormed L n) (i : Nat) (hi : i < n)
+    (hdown : nth L.pb (i + 1) < pressureInLayer L i (nth L.hb (i + 1)))
+    (h : ℝ) (hlo : nth L.hb i ≤ h) (hhi : h ≤ nth L.hb (i + 1)) :
+    nth L.pb (i + 1) < pressureInLayer L i h := by
+  have hg := W.g_pos
+  obtain ⟨hTi, hPi, hnegi⟩ := W.layer i hi
+  have hHH : nth L.hb i < nth L.hb (i + 1) := W.hb_mono i (i + 1) (by omega) (by omega)
+  have t2 : 0 < nth L.tb i + nth L.lm i * (nth L.hb (i + 1) - nth L.hb i) := by
+    by_cases hl : nth L.lm i < 0
+    · exact hnegi hl
+    · have : 0 ≤ nth L.lm i * (nth L.hb (i + 1) - nth L.hb i) := mul_nonneg (not_lt.mp hl) (by linarith)
+      linarith
+  have t1 : 0 < nth L.tb i + nth L.lm i * (h - nth L.hb i) := by
+    by_cases hl : nth L.lm i < 0
+    · nlinarith
+    · have : 0 ≤ nth L.lm i * (h - nth L.hb i) := mul_nonneg (not_lt.mp hl) (by linarith)
+      linarith
+  exact lt_of_lt_of_le hdown (pressure_antitone L i h _ hPi hTi hg t1 t2 hhi)
+
+/-- **the sliver, parametric and complete.**  Boundary `H_b[i+1]` with an upward pressure step of at most `e^ε`
+(`heps`), the step smaller than the distance to the next base pressure (`hnext`).  For EVERY height `h` of layer
+`i` whose forward pressure does not exceed `P_b[i+1]`: the inverse selects layer `i+1`, returns a height
+`H' ≥ h`, and `H' − h ≤ (T_max/g)·ε`.  `T_max` has to dominate the temperature of layer `i` at the boundary
+(plus `a·T_b[i]·ε/g`, `a` bounding the negative part of its lapse rate) and `T_b[i+1]/(1 − ε b/g)` (`b` bounding
+the positive part of the lapse rate of layer `i+1`) — rational conditions on the table. -/
+theorem sliver_roundtrip {L : Layers ℝ} {n : Nat} (W : WellFormed L n) (i : Nat) (hi : i + 1 < n)
+    (ε Tmax a b : ℝ) (hε : 0 ≤ ε)
+    (heps : Real.log (nth L.pb (i + 1) / pressureInLayer L i (nth L.hb (i + 1))) ≤ ε)
+    (hnext : nth L.pb (i + 1 + 1) < nth L.pb (i + 1) * (1 - ε))
+    (ha0 : 0 ≤ a) (ha : -a ≤ nth L.lm i)
+    (hTa : nth L.tb i + nth L.lm i * (nth L.hb (i + 1) - nth L.hb i) + a * (nth L.tb i * ε / L.gmr) ≤ Tmax)
+    (hb0 : 0 ≤ b) (hb : nth L.lm (i + 1) ≤ b)
+    (hTb : nth L.tb (i + 1) ≤ Tmax * (1 - ε * b / L.gmr))
+    (h : ℝ) (hlo : nth L.hb i ≤ h) (hhi : h ≤ nth L.hb (i + 1))
+    (hP : pressureInLayer L i h ≤ nth L.pb (i + 1)) :
+    0 < pressureInLayer L i h ∧
+    layerOfPressure L (pressureInLayer L i h) = i + 1 ∧
+    h ≤ heightInLayer L (i + 1) (pressureInLayer L i h) ∧
+    heightInLayer L (i + 1) (pressureInLayer L i h) - h ≤ Tmax / L.gmr * ε := by
+  have hg := W.g_pos
+  obtain ⟨hTi, hPi, hnegi⟩ := W.layer i (by omega)
+  obtain ⟨hTj, hPj, _⟩ := W.layer (i + 1) hi
+  have hHH : nth L.hb i < nth L.hb (i + 1) := W.hb_mono i (i + 1) (by omega) (by omega)
+  -- temperatures of layer i at the boundary and at h
+  have t2 : 0 < nth L.tb i + nth L.lm i * (nth L.hb (i + 1) - nth L.hb i) := by
+    by_cases hl : nth L.lm i < 0
+    · exact hnegi hl
+    · have : 0 ≤ nth L.lm i * (nth L.hb (i + 1) - nth L.hb i) := mul_nonneg (not_lt.mp hl) (by linarith)
+      linarith
+  have t1 : 0 < nth L.tb i + nth L.lm i * (h - nth L.hb i) := by
+    by_cases hl : nth L.lm i < 0
+    · nlinarith
+    · have : 0 ≤ nth L.lm i * (h - nth L.hb i) := mul_nonneg (not_lt.mp hl) (by linarith)
+      linarith
+  obtain ⟨P, hPdef⟩ : ∃ P, pressureInLayer L i h = P := ⟨_, rfl⟩
+  obtain ⟨P2, hP2def⟩ : ∃ P2, pressureInLayer L i (nth L.hb (i + 1)) = P2 := ⟨_, rfl⟩
+  have hPpos : 0 < P := hPdef ▸ pressure_pos L i h hPi hTi t1
+  have hP2pos : 0 < P2 := hP2def ▸ pressure_pos L i _ hPi hTi t2
+  have hP2P : P2 ≤ P := by
+    rw [← hPdef, ← hP2def]; exact pressure_antitone L i h _ hPi hTi hg t1 t2 hhi
+  have hstep : nth L.pb (i + 1) ≤ Real.exp ε * P2 := by
+    rw [← hP2def]; exact pressure_step_le L i ε hPj (hP2def ▸ hP2pos) heps
+  have hstepP : nth L.pb (i + 1) ≤ Real.exp ε * P :=
+    le_trans hstep (mul_le_mul_of_nonneg_left hP2P (Real.exp_pos _).le)
+  rw [hPdef] at hP ⊢
+  rw [hP2def] at heps
+  -- the inverse picks layer i+1
+  have hgt : nth L.pb (i + 1 + 1) < P := by
+    have h1 := mul_one_sub_le_mul_exp_neg (ε := ε) hPj.le
+    have h2 : nth L.pb (i + 1) * Real.exp (-ε) ≤ P2 := by
+      have e : Real.exp ε * Real.exp (-ε) = 1 := by rw [← Real.exp_add]; simp
+      calc nth L.pb (i + 1) * Real.exp (-ε) ≤ (Real.exp ε * P2) * Real.exp (-ε) :=
+            mul_le_mul_of_nonneg_right hstep (Real.exp_pos _).le
+        _ = P2 := by rw [mul_comm (Real.exp ε) P2, mul_assoc, e, mul_one]
+    linarith
+  have hsel := layerOfPressure_same W (i + 1) hi P hP hgt
+  refine ⟨hPpos, hsel, ?_⟩
+  -- T_max dominates everything met
+  have hnn : 0 ≤ a * (nth L.tb i * ε / L.gmr) := by positivity
+  have hTmax : 0 < Tmax := by linarith
+  have hx0 : 0 ≤ ε * b / L.gmr := by positivity
+  have t4m : nth L.tb (i + 1) ≤ Tmax := by nlinarith
+  have t2m : nth L.tb i + nth L.lm i * (nth L.hb (i + 1) - nth L.hb i) ≤ Tmax := by linarith
+  have t1m : nth L.tb i + nth L.lm i * (h - nth L.hb i) ≤ Tmax := by
+    by_cases hl : nth L.lm i < 0
+    · -- crude slope with T ≤ T_b[i]: H_b[i+1] − h ≤ T_b[i] ε / g
+      have m1 : nth L.tb i + nth L.lm i * (h - nth L.hb i) ≤ nth L.tb i := by nlinarith
+      have m2 : nth L.tb i + nth L.lm i * (nth L.hb (i + 1) - nth L.hb i) ≤ nth L.tb i := by nlinarith
+      have s := pressure_log_slope L i h (nth L.hb (i + 1)) (nth L.tb i) hPi hTi hg hhi t1 t2 m1 m2
+      rw [hPdef, hP2def] at s
+      have hlog : Real.log (P / P2) ≤ ε := by
+        refine le_trans (Real.log_le_log (div_pos hPpos hP2pos) ?_) heps
+        exact div_le_div_of_nonneg_right hP hP2pos.le
+      have hd : nth L.hb (i + 1) - h ≤ nth L.tb i * ε / L.gmr := by
+        rw [le_div_iff₀ hg]
+        have := le_trans s hlog
+        rw [div_le_iff₀ hTi] at this
+        linarith
+      have hd0 : 0 ≤ nth L.hb (i + 1) - h := by linarith
+      nlinarith
+    · have : nth L.lm i * (h - nth L.hb i) ≤ nth L.lm i * (nth L.hb (i + 1) - nth L.hb i) :=
+        mul_le_mul_of_nonneg_left (by linarith) (not_lt.mp hl)
+      linarith
+  have heps' : Real.log (nth L.pb (i + 1) / pressureInLayer L i (nth L.hb (i + 1))) ≤ ε := by
+    rw [hP2def]; exact heps
+  -- the height the inverse returns
+  by_cases hl : nth L.lm (i + 1) = 0
+  · have hinv := (layer_inverse_isothermal L (i + 1) hl hPj hTj hg).2 P hPpos
+    have hge : nth L.hb (i + 1) ≤ heightInLayer L (i + 1) P := by
+      rw [heightInLayer_iso L (i + 1) P hl]; exact Hiso_ge_base hPpos hP hTj hg
+    refine ⟨by linarith, ?_⟩
+    exact roundtrip_parametric L i h _ Tmax ε hg hTmax hPi hTi hPj hTj hhi hge t1 t1m t2 t2m
+      (by rw [hl]; simpa using hTj) (by rw [hl]; simpa using t4m) t4m heps' (by rw [hinv, hPdef])
+  · have hinv := (layer_inverse_gradient L (i + 1) hl hPj hTj hg).2 P hPpos
+    have hge : nth L.hb (i + 1) ≤ heightInLayer L (i + 1) P := by
+      rw [heightInLayer_grad L (i + 1) P hl]; exact Hgr_ge_base hPpos hP hTj hl hg
+    have t3 : 0 < nth L.tb (i + 1) + nth L.lm (i + 1) * (heightInLayer L (i + 1) P - nth L.hb (i + 1)) := by
+      rw [heightInLayer_grad L (i + 1) P hl]; exact Hgr_temp_pos hPpos hPj hTj hl
+    have t3m : nth L.tb (i + 1) + nth L.lm (i + 1) * (heightInLayer L (i + 1) P - nth L.hb (i + 1)) ≤ Tmax := by
+      rw [heightInLayer_grad L (i + 1) P hl]
+      exact Hgr_temp_le hPpos hP hstepP hTj hl hg hε hb0 hb hTmax hTb
+    refine ⟨by linarith, ?_⟩
+    exact roundtrip_parametric L i h _ Tmax ε hg hTmax hPi hTi hPj hTj hhi hge t1 t1m t2 t2m t3 t3m t4m
+      heps' (by rw [hinv, hPdef])
+
+/-- the same at altitude level: for an altitude `z` of layer `i` whose forward pressure does not exceed
+`P_b[i+1]`, the round trip overshoots by at most `(R/(R − H_cap))²·(T_max/g)·ε` (and never undershoots) -/
+theorem sliver_altitude {L : Layers ℝ} {n : Nat} (W : WellFormed L n) (i : Nat) (hi : i + 1 < n)
+    (ε Tmax a b Hcap : ℝ) (hε : 0 ≤ ε)
+    (heps : Real.log (nth L.pb (i + 1) / pressureInLayer L i (nth L.hb (i + 1))) ≤ ε)
+    (hnext : nth L.pb (i + 1 + 1) < nth L.pb (i + 1) * (1 - ε))
+    (ha0 : 0 ≤ a) (ha : -a ≤ nth L.lm i)
+    (hTa : nth L.tb i + nth L.lm i * (nth L.hb (i + 1) - nth L.hb i) + a * (nth L.tb i * ε / L.gmr) ≤ Tmax)
+    (hb0 : 0 ≤ b) (hb : nth L.lm (i + 1) ≤ b)
+    (hTb : nth L.tb (i + 1) ≤ Tmax * (1 - ε * b / L.gmr))
+    (hcap : nth L.hb (i + 1) + Tmax / L.gmr * ε ≤ Hcap) (hcapR : Hcap < L.earthRadius)
+    (z : ℝ) (hz0 : 0 ≤ z) (hzi : z < L.inf) (hsel : layerOfHeight L (geopotential L z) = i)
+    (hP : pressureFromAltitude L z ≤ nth L.pb (i + 1)) :
+    0 ≤ altitudeFromPressure L (pressureFromAltitude L z) - z ∧
+    altitudeFromPressure L (pressureFromAltitude L z) - z
+      ≤ L.earthRadius ^ 2 * (Tmax / L.gmr * ε) / (L.earthRadius - Hcap) ^ 2 := by
+  have hRpos := W.R_pos
+  obtain ⟨hh0, hhR⟩ := geopotential_range hRpos hz0
+  have hgeo : geopotential L z = z * L.earthRadius / (z + L.earthRadius) := rfl
+  rw [← hgeo] at hh0 hhR
+  obtain ⟨_, hlo, hhi⟩ := layerOfHeight_spec W (geopotential L z) hh0 hhR
+  have hfa : pressureFromAltitude L z
+      = pressureInLayer L (layerOfHeight L (geopotential L z)) (geopotential L z) := by
+    simp [pressureFromAltitude, hzi]
+  rw [hsel] at hlo hhi hfa
+  rw [hfa] at hP ⊢
+  obtain ⟨hPpos, hselP, hge, hd⟩ :=
+    sliver_roundtrip W i hi ε Tmax a b hε heps hnext ha0 ha hTa hb0 hb hTb _ hlo hhi.le hP
+  have halt : altitudeFromPressure L (pressureInLayer L i (geopotential L z))
+      = geometric L (heightInLayer L (i + 1) (pressureInLayer L i (geopotential L z))) := by
+    simp [altitudeFromPressure, hPpos, hselP]
+  have hzz : L.earthRadius * geopotential L z / (L.earthRadius - geopotential L z) = z :=
+    geometric_geopotential (by linarith) hRpos.ne'
+  have hcap' : heightInLayer L (i + 1) (pressureInLayer L i (geopotential L z)) ≤ Hcap := by linarith
+  have key := geometric_diff_le (R := L.earthRadius) hge hcap' hcapR hd
+  rw [hzz] at key
+  rw [halt]
+  exact key
+
+/-! ### the other direction, P → z → P: layer selection and the gap above a downward step -/
+
+/-- log-pressure falls at most at the rate `g/T_min` inside a layer (both branches) -/
+theorem pressure_log_slope_upper (L : Layers ℝ) (i : Nat) (h1 h2 Tmin : ℝ) (hP : 0 < nth L.pb i)
+    (hT : 0 < nth L.tb i) (hg : 0 < L.gmr) (hh : h1 ≤ h2) (hmin0 : 0 < Tmin)
+    (m1 : Tmin ≤ nth L.tb i + nth L.lm i * (h1 - nth L.hb i)) (m2 : Tmin ≤ nth L.tb i + nth L.lm i * (h2 - nth L.hb i)) :
+    Real.log (pressureInLayer L i h1 / pressureInLayer L i h2) ≤ L.gmr * (h2 - h1) / Tmin := by
+  by_cases hl : nth L.lm i = 0
+  · rw [pressureInLayer_iso L i h1 hl, pressureInLayer_iso L i h2 hl]
+    exact Piso_log_slope_upper hP hg hh hmin0 (by simpa [hl] using m1)
+  · rw [pressureInLayer_grad L i h1 hl, pressureInLayer_grad L i h2 hl]
+    exact Pgr_log_slope_upper hP hT hl hg hh (by linarith) (by linarith) hmin0 m1 m2
+
+/-- the inverse selection loop finds the layer whose base pressures bracket `P`: `P_b[k+1] < P ≤ P_b[k]`, `k < n`
+(for `0 < P ≤ P_b[0]`; the sentinel entry `P_b[n]` is not positive) -/
+theorem layerOfPressure_spec {L : Layers ℝ} {n : Nat} (W : WellFormed L n) (hsent : nth L.pb n ≤ 0) (P : ℝ)
+    (hP0 : 0 < P) (hP1 : P ≤ nth L.pb 0) :
+    layerOfPressure L P < n ∧ nth L.pb (layerOfPressure L P + 1) < P ∧ P ≤ nth L.pb (layerOfPressure L P) := by
+  rw [layerOfPressure_eq]
+  have hlen : L.pb.tail.length = n := by rw [List.length_tail, W.len_pb]; rfl
+  rcases lastIdx_spec (fun Pb => decide (P ≤ Pb)) (0:ℝ) L.pb.tail 1 0 with ⟨h1, h2⟩ | ⟨k, hk, h1, h2, h3⟩
+  · rw [h1]
+    have hn : 0 < n := by
+      rcases Nat.eq_zero_or_pos n with hn | hn
+      · subst hn; linarith
+      · exact hn
+    refine ⟨hn, ?_, hP1⟩
+    have := h2 0 (by omega)
+    rw [getD_tail] at this
+    simpa [nth_eq] using this
+  · rw [h1]
+    rw [hlen] at hk
+    rw [getD_tail] at h2
+    have h2' : P ≤ nth L.pb (k + 1) := by simpa [nth_eq] using h2
+    have hlt : 1 + k < n := by
+      rcases Nat.lt_or_ge (1 + k) n with hh | hh
+      · exact hh
+      · have : 1 + k = n := by omega
+        rw [show k + 1 = n by omega] at h2'
+        linarith
+    refine ⟨hlt, ?_, by rw [show 1 + k = k + 1 by omega]; exact h2'⟩
+    have := h3 (k + 1) (by omega) (by omega)
+    rw [getD_tail] at this
+    rw [show 1 + k + 1 = k + 1 + 1 by omega]
+    simpa [nth_eq] using this
+
+/-- the forward selection loop returns `k` for every height of `[H_b[k], H_b[k+1])` -/
+theorem layerOfHeight_same {L : Layers ℝ} {n : Nat} (W : WellFormed L n) (k : Nat) (hk : k < n) (h : ℝ)
+    (h0 : 0 ≤ h) (hR : h < L.earthRadius) (hlo : nth L.hb k ≤ h) (hhi : h < nth L.hb (k + 1)) :
+    layerOfHeight L h = k := by
+  obtain ⟨hi, h1, h2⟩ := layerOfHeight_spec W h h0 hR
+  generalize layerOfHeight L h = i at *
+  rcases Nat.lt_trichotomy i k with hlt | heq | hgt
+  · have : nth L.hb (i + 1) ≤ nth L.hb k := by
+      rcases Nat.eq_or_lt_of_le (show i + 1 ≤ k by omega) with e | e
+      · rw [e]
+      · exact (W.hb_mono (i + 1) k e (by omega)).le
+    linarith
+  · exact heq
+  · have : nth L.hb (k + 1) ≤ nth L.hb i := by
+      rcases Nat.eq_or_lt_of_le (show k + 1 ≤ i by omega) with e | e
+      · rw [e]
+      · exact (W.hb_mono (k + 1) i e (by omega)).le
+    linarith
+
+/-- what the in-layer inverse returns for `0 < P ≤ P_b[k]`: a height at or above the base of the layer, where
+the layer temperature is positive, and whose in-layer pressure is `P` again -/
+theorem inverse_in_layer {L : Layers ℝ} {n : Nat} (W : WellFormed L n) (k : Nat) (hk : k < n) (P : ℝ)
+    (hP0 : 0 < P) (hP1 : P ≤ nth L.pb k) :
+    nth L.hb k ≤ heightInLayer L k P ∧
+    0 < nth L.tb k + nth L.lm k * (heightInLayer L k P - nth L.hb k) ∧
+    pressureInLayer L k (heightInLayer L k P) = P := by
+  have hg := W.g_pos
+  obtain ⟨hT, hPb, _⟩ := W.layer k hk
+  by_cases hl : nth L.lm k = 0
+  · refine ⟨?_, by rw [hl]; simpa using hT, (layer_inverse_isothermal L k hl hPb hT hg).2 P hP0⟩
+    rw [heightInLayer_iso L k P hl]; exact Hiso_ge_base hP0 hP1 hT hg
+  · refine ⟨?_, ?_, (layer_inverse_gradient L k hl hPb hT hg).2 P hP0⟩
+    · rw [heightInLayer_grad L k P hl]; exact Hgr_ge_base hP0 hP1 hT hl hg
+    · rw [heightInLayer_grad L k P hl]; exact Hgr_temp_pos hP0 hPb hT hl
+
+/-- **the gap above a downward step, parametric.**  Boundary `H_b[k+1]` where the continuation of layer `k` lies
+above the tabulated base pressure by at most `e^ε` (`hgap`).  A height `H ≥ H_b[k+1]` that the inverse of layer
+`k` returned for a pressure still above `P_b[k+1]` (`hPgt`) lies within `ε T/(g − ε c)` of the boundary (`T` the
+temperature of layer `k` at the boundary, `c` bounding the positive part of its lapse rate), and the forward
+formula of layer `k+1` (non-negative lapse rate) gives a pressure below by at most `ε + g (H − H_b[k+1])/T_b[k+1]`
+in log-pressure. -/
+theorem gap_forward {L : Layers ℝ} {n : Nat} (W : WellFormed L n) (k : Nat) (hk : k + 1 < n) (ε c : ℝ)
+    (hgap : Real.log (pressureInLayer L k (nth L.hb (k + 1)) / nth L.pb (k + 1)) ≤ ε)
+    (hc0 : 0 ≤ c) (hc : nth L.lm k ≤ c) (hgc : 0 < L.gmr - ε * c) (hl1 : 0 ≤ nth L.lm (k + 1))
+    (H : ℝ) (hH : nth L.hb (k + 1) ≤ H)
+    (hT : 0 < nth L.tb k + nth L.lm k * (H - nth L.hb k))
+    (hPgt : nth L.pb (k + 1) < pressureInLayer L k H) :
+    H - nth L.hb (k + 1)
+      ≤ ε * (nth L.tb k + nth L.lm k * (nth L.hb (k + 1) - nth L.hb k)) / (L.gmr - ε * c) ∧
+    0 < pressureInLayer L (k + 1) H ∧ pressureInLayer L (k + 1) H ≤ nth L.pb (k + 1) ∧
+    Real.log (pressureInLayer L k H / pressureInLayer L (k + 1) H)
+      ≤ ε + L.gmr * (H - nth L.hb (k + 1)) / nth L.tb (k + 1) := by
+  have hg := W.g_pos
+  obtain ⟨hTk, hPk, hnegk⟩ := W.layer k (by omega)
+  obtain ⟨hTj, hPj, _⟩ := W.layer (k + 1) hk
+  have hHH : nth L.hb k < nth L.hb (k + 1) := W.hb_mono k (k + 1) (by omega) (by omega)
+  have t2 : 0 < nth L.tb k + nth L.lm k * (nth L.hb (k + 1) - nth L.hb k) := by
+    by_cases hl : nth L.lm k < 0
+    · exact hnegk hl
+    · have : 0 ≤ nth L.lm k * (nth L.hb (k + 1) - nth L.hb k) := mul_nonneg (not_lt.mp hl) (by linarith)
+      linarith
+  obtain ⟨Tj, hTjdef⟩ : ∃ Tj, nth L.tb k + nth L.lm k * (nth L.hb (k + 1) - nth L.hb k) = Tj := ⟨_, rfl⟩
+  obtain ⟨δ, hδdef⟩ : ∃ δ, H - nth L.hb (k + 1) = δ := ⟨_, rfl⟩
+  have hδ0 : 0 ≤ δ := by linarith
+  have hTH : nth L.tb k + nth L.lm k * (H - nth L.hb k) = Tj + nth L.lm k * δ := by
+    rw [← hTjdef, ← hδdef]; ring
+  have hP2pos : 0 < pressureInLayer L k (nth L.hb (k + 1)) := pressure_pos L k _ hPk hTk t2
+  have hPHpos : 0 < pressureInLayer L k H := pressure_pos L k H hPk hTk hT
+  have hanti : pressureInLayer L k H ≤ pressureInLayer L k (nth L.hb (k + 1)) :=
+    pressure_antitone L k _ H hPk hTk hg t2 hT hH
+  -- u = log(P_k(H_j)/P_k(H)) ≤ ε
+  have hu : Real.log (pressureInLayer L k (nth L.hb (k + 1)) / pressureInLayer L k H) ≤ ε := by
+    refine le_trans (Real.log_le_log (div_pos hP2pos hPHpos) ?_) hgap
+    exact div_le_div_of_nonneg_left hP2pos.le hPj hPgt.le
+  have hε : 0 ≤ ε := by
+    refine le_trans (Real.log_nonneg ?_) hu
+    rw [le_div_iff₀ hPHpos]; linarith
+  -- δ (g − ε c) ≤ ε T_j
+  have hδ : δ * (L.gmr - ε * c) ≤ ε * Tj := by
+    rcases le_or_gt (nth L.lm k) 0 with hl | hl
+    · have m2 : nth L.tb k + nth L.lm k * (H - nth L.hb k) ≤ Tj := by
+        rw [hTH]; nlinarith
+      have s := pressure_log_slope L k (nth L.hb (k + 1)) H Tj hPk hTk hg hH t2 hT (by rw [hTjdef]) m2
+      rw [hδdef] at s
+      have s2 := le_trans s hu
+      rw [hTjdef] at t2
+      rw [div_le_iff₀ t2] at s2
+      have : 0 ≤ δ * (ε * c) := by positivity
+      nlinarith
+    · have m1 : Tj ≤ nth L.tb k + nth L.lm k * (H - nth L.hb k) := by
+        rw [hTH]; nlinarith
+      have s := pressure_log_slope L k (nth L.hb (k + 1)) H (nth L.tb k + nth L.lm k * (H - nth L.hb k))
+        hPk hTk hg hH t2 hT (by rw [hTjdef]; exact m1) le_rfl
+      rw [hδdef] at s
+      have s2 := le_trans s hu
+      rw [div_le_iff₀ hT, hTH] at s2
+      have : ε * (nth L.lm k * δ) ≤ ε * (c * δ) :=
+        mul_le_mul_of_nonneg_left (mul_le_mul_of_nonneg_right hc hδ0) hε
+      nlinarith
+  have hD : δ ≤ ε * Tj / (L.gmr - ε * c) := by rw [le_div_iff₀ hgc]; exact hδ
+  refine ⟨by rw [hδdef, hTjdef]; exact hD, ?_⟩
+  -- layer k+1 at H
+  have t0 : 0 < nth L.tb (k + 1) + nth L.lm (k + 1) * (nth L.hb (k + 1) - nth L.hb (k + 1)) := by simpa using hTj
+  have hnn : 0 ≤ nth L.lm (k + 1) * (H - nth L.hb (k + 1)) := mul_nonneg hl1 (by linarith)
+  have t3 : 0 < nth L.tb (k + 1) + nth L.lm (k + 1) * (H - nth L.hb (k + 1)) := by linarith
+  have hP' : 0 < pressureInLayer L (k + 1) H := pressure_pos L (k + 1) H hPj hTj t3
+  have hle : pressureInLayer L (k + 1) H ≤ nth L.pb (k + 1) := by
+    have := pressure_antitone L (k + 1) _ H hPj hTj hg t0 t3 hH
+    rwa [pressure_at_base L (k + 1) hTj] at this
+  refine ⟨hP', hle, ?_⟩
+  have s3 := pressure_log_slope_upper L (k + 1) (nth L.hb (k + 1)) H (nth L.tb (k + 1)) hPj hTj hg hH hTj
+    (by simp) (by linarith)
+  rw [pressure_at_base L (k + 1) hTj, hδdef] at s3
+  have h1 : Real.log (pressureInLayer L k H / nth L.pb (k + 1)) ≤ ε := by
+    refine le_trans (Real.log_le_log (div_pos hPHpos hPj) ?_) hgap
+    exact div_le_div_of_nonneg_right hanti hPj.le
+  have e : Real.log (pressureInLayer L k H / pressureInLayer L (k + 1) H)
+      = Real.log (pressureInLayer L k H / nth L.pb (k + 1)) + Real.log (nth L.pb (k + 1) / pressureInLayer L (k + 1) H) := by
+    rw [Real.log_div hPHpos.ne' hP'.ne', Real.log_div hPHpos.ne' hPj.ne', Real.log_div hPj.ne' hP'.ne']
+    ring
+  rw [e, hδdef]
+  linarith
+
+/-! ### positivity, and monotonicity up to the steps at the boundaries -/
+
+/-- the temperature of layer `i` is positive on `[H_b[i], H_b[i+1]]` -/
+theorem layer_temp_pos {L : Layers ℝ} {n : Nat} (W : WellFormed L n) (i : Nat) (hi : i < n) (h : ℝ)
+    (hlo : nth L.hb i ≤ h) (hhi : h ≤ nth L.hb (i + 1)) : 0 < nth L.tb i + nth L.lm i * (h - nth L.hb i) := by
+  obtain ⟨hTi, _, hnegi⟩ := W.layer i hi
+  by_cases hl : nth L.lm i < 0
+  · have := hnegi hl; nlinarith
+  · have : 0 ≤ nth L.lm i * (h - nth L.hb i) := mul_nonneg (not_lt.mp hl) (by linarith)
+    linarith
+
+/-- the forward pressure is positive for every altitude `0 ≤ z < ∞` -/
+theorem pressure_positive {L : Layers ℝ} {n : Nat} (W : WellFormed L n) (z : ℝ) (hz0 : 0 ≤ z) (hzi : z < L.inf) :
+    0 < pressureFromAltitude L z := by
+  obtain ⟨hh0, hhR⟩ := geopotential_range W.R_pos hz0
+  have hgeo : geopotential L z = z * L.earthRadius / (z + L.earthRadius) := rfl
+  rw [← hgeo] at hh0 hhR
+  obtain ⟨hi, hlo, hhi⟩ := layerOfHeight_spec W (geopotential L z) hh0 hhR
+  have hfa : pressureFromAltitude L z
+      = pressureInLayer L (layerOfHeight L (geopotential L z)) (geopotential L z) := by
+    simp [pressureFromAltitude, hzi]
+  rw [hfa]
+  obtain ⟨hT, hPb, _⟩ := W.layer _ hi
+  exact pressure_pos L _ _ hPb hT (layer_temp_pos W _ hi _ hlo hhi.le)
+
+/-- chain of boundaries: if the tabulated base pressure at each boundary `j+1` exceeds the continuation of layer
+`j` by at most the factor `exp(c(j+1) − c(j))`, then every later base pressure `P_b[m]` is at most
+`exp(c(m) − c(i))` times the pressure anywhere in layer `i` -/
+theorem base_pressure_chain {L : Layers ℝ} {n : Nat} (W : WellFormed L n) (c : ℕ → ℝ)
+    (hstep : ∀ j, j + 1 < n →
+      nth L.pb (j + 1) ≤ Real.exp (c (j + 1) - c j) * pressureInLayer L j (nth L.hb (j + 1)))
+    (i : Nat) (h : ℝ) (hlo : nth L.hb i ≤ h) (hhi : h ≤ nth L.hb (i + 1)) :
+    ∀ m, i + 1 ≤ m → m < n → nth L.pb m ≤ Real.exp (c m - c i) * pressureInLayer L i h := by
+  have hg := W.g_pos
+  intro m hm
+  induction m, hm using Nat.le_induction with
+  | base =>
+    intro hn
+    obtain ⟨hTi, hPi, _⟩ := W.layer i (by omega)
+    have hHH : nth L.hb i < nth L.hb (i + 1) := W.hb_mono i (i + 1) (by omega) (by omega)
+    have t1 := layer_temp_pos W i (by omega) h hlo hhi
+    have t2 := layer_temp_pos W i (by omega) (nth L.hb (i + 1)) hHH.le le_rfl
+    have ha := pressure_antitone L i h _ hPi hTi hg t1 t2 hhi
+    exact le_trans (hstep i hn) (mul_le_mul_of_nonneg_left ha (Real.exp_pos _).le)
+  | succ m hm ih =>
+    intro hn
+    have ihm := ih (by omega)
+    obtain ⟨hTm, hPm, _⟩ := W.layer m (by omega)
+    have hHH : nth L.hb m < nth L.hb (m + 1) := W.hb_mono m (m + 1) (by omega) (by omega)
+    have t0 := layer_temp_pos W m (by omega) (nth L.hb m) le_rfl hHH.le
+    have t2 := layer_temp_pos W m (by omega) (nth L.hb (m + 1)) hHH.le le_rfl
+    have ha := pressure_antitone L m _ _ hPm hTm hg t0 t2 hHH.le
+    rw [pressure_at_base L m hTm] at ha
+    have e : Real.exp (c (m + 1) - c i) = Real.exp (c (m + 1) - c m) * Real.exp (c m - c i) := by
+      rw [← Real.exp_add]; congr 1; ring
+    calc nth L.pb (m + 1) ≤ Real.exp (c (m + 1) - c m) * pressureInLayer L m (nth L.hb (m + 1)) := hstep m hn
+      _ ≤ Real.exp (c (m + 1) - c m) * nth L.pb m := mul_le_mul_of_nonneg_left ha (Real.exp_pos _).le
+      _ ≤ Real.exp (c (m + 1) - c m) * (Real.exp (c m - c i) * pressureInLayer L i h) :=
+          mul_le_mul_of_nonneg_left ihm (Real.exp_pos _).le
+      _ = Real.exp (c (m + 1) - c i) * pressureInLayer L i h := by rw [e, mul_assoc]
+
+/-- **pressure is non-increasing with altitude up to the steps at the boundaries**: with cumulative upward steps
+`c` whose total is at most `C`, `P(z₂) ≤ e^C · P(z₁)` for all `0 ≤ z₁ ≤ z₂ < ∞` -/
+theorem pressure_monotone_up_to_steps {L : Layers ℝ} {n : Nat} (W : WellFormed L n) (c : ℕ → ℝ) (C : ℝ)
+    (hstep : ∀ j, j + 1 < n →
+      nth L.pb (j + 1) ≤ Real.exp (c (j + 1) - c j) * pressureInLayer L j (nth L.hb (j + 1)))
+    (hC : ∀ i j, i ≤ j → j < n → c j - c i ≤ C)
+    (z1 z2 : ℝ) (hz0 : 0 ≤ z1) (hz : z1 ≤ z2) (hzi : z2 < L.inf) :
+    pressureFromAltitude L z2 ≤ Real.exp C * pressureFromAltitude L z1 := by
+  have hg := W.g_pos
+  have hRpos := W.R_pos
+  have hz20 : 0 ≤ z2 := by linarith
+  obtain ⟨ha0, haR⟩ := geopotential_range hRpos hz0
+  obtain ⟨hb0, hbR⟩ := geopotential_range hRpos hz20
+  have hgeo1 : geopotential L z1 = z1 * L.earthRadius / (z1 + L.earthRadius) := rfl
+  have hgeo2 : geopotential L z2 = z2 * L.earthRadius / (z2 + L.earthRadius) := rfl
+  have hHH : geopotential L z1 ≤ geopotential L z2 := by
+    rw [hgeo1, hgeo2, div_le_div_iff₀ (by linarith) (by linarith)]
+    nlinarith [mul_nonneg (mul_nonneg hRpos.le hRpos.le) (sub_nonneg.mpr hz)]
+  rw [← hgeo1] at ha0 haR
+  rw [← hgeo2] at hb0 hbR
+  obtain ⟨hi1, hlo1, hhi1⟩ := layerOfHeight_spec W (geopotential L z1) ha0 haR
+  obtain ⟨hi2, hlo2, hhi2⟩ := layerOfHeight_spec W (geopotential L z2) hb0 hbR
+  have hfa1 : pressureFromAltitude L z1
+      = pressureInLayer L (layerOfHeight L (geopotential L z1)) (geopotential L z1) := by
+    have : z1 < L.inf := by linarith
+    simp [pressureFromAltitude, this]
+  have hfa2 : pressureFromAltitude L z2
+      = pressureInLayer L (layerOfHeight L (geopotential L z2)) (geopotential L z2) := by
+    simp [pressureFromAltitude, hzi]
+  rw [hfa1, hfa2]
+  generalize geopotential L z1 = H1 at *
+  generalize geopotential L z2 = H2 at *
+  generalize layerOfHeight L H1 = i1 at *
+  generalize layerOfHeight L H2 = i2 at *
+  obtain ⟨hT1, hP1, _⟩ := W.layer i1 hi1
+  obtain ⟨hT2, hP2, _⟩ := W.layer i2 hi2
+  have t1 := layer_temp_pos W i1 hi1 H1 hlo1 hhi1.le
+  have t2 := layer_temp_pos W i2 hi2 H2 hlo2 hhi2.le
+  have hpos1 : 0 < pressureInLayer L i1 H1 := pressure_pos L i1 H1 hP1 hT1 t1
+  rcases Nat.lt_trichotomy i1 i2 with hlt | heq | hgt
+  · have hHH2 : nth L.hb i2 < nth L.hb (i2 + 1) := W.hb_mono i2 (i2 + 1) (by omega) (by omega)
+    have t0 := layer_temp_pos W i2 hi2 (nth L.hb i2) le_rfl hHH2.le
+    have ha := pressure_antitone L i2 _ _ hP2 hT2 hg t0 t2 hlo2
+    rw [pressure_at_base L i2 hT2] at ha
+    have hch := base_pressure_chain W c hstep i1 H1 hlo1 hhi1.le i2 (by omega) hi2
+    have hexp : Real.exp (c i2 - c i1) ≤ Real.exp C := Real.exp_le_exp.mpr (hC i1 i2 hlt.le hi2)
+    calc pressureInLayer L i2 H2 ≤ nth L.pb i2 := ha
+      _ ≤ Real.exp (c i2 - c i1) * pressureInLayer L i1 H1 := hch
+      _ ≤ Real.exp C * pressureInLayer L i1 H1 := mul_le_mul_of_nonneg_right hexp hpos1.le
+  · subst heq
+    have ha := pressure_antitone L i1 _ _ hP1 hT1 hg t1 t2 hHH
+    have hC0 : 0 ≤ C := by have := hC i1 i1 le_rfl hi1; linarith
+    have : 1 ≤ Real.exp C := by
+      have := Real.add_one_le_exp C; linarith
+    nlinarith
+  · exfalso
+    have : nth L.hb (i2 + 1) ≤ nth L.hb i1 := by
+      rcases Nat.eq_or_lt_of_le (show i2 + 1 ≤ i1 by omega) with e | e
+      · rw [e]
+      · exact (W.hb_mono (i2 + 1) i1 e (by omega)).le
+    linarith
+
+/-! ### the regenerated table: the numeric clauses -/
+
+/-- the regenerated table, `inf` standing for `np.inf` -/
+local notation "𝕃" => Gen.AtmConsts.layers
+
+/-- (data, `Lemmas/AtmNumeric.lean`) enclosures of the seven boundary mismatches
+`ε_j = log(P_{j-1}(H_j)/P_j)` of the regenerated table, each to 1e-12: the pressure steps DOWN going up at 11 km
+and 47 km (ε > 0) and UP at 20, 32, 51, 71 and 84.852 km (ε < 0) -/
+theorem boundary_mismatch_enclosures (inf : ℝ) :
+    boundaryMismatch (𝕃 inf) 1 ∈ Set.Icc (1.1228e-8 : ℝ) (1.1229e-8) ∧
+    boundaryMismatch (𝕃 inf) 2 ∈ Set.Icc (-3.1757e-8 : ℝ) (-3.1755e-8) ∧
+    boundaryMismatch (𝕃 inf) 3 ∈ Set.Icc (-2.0964e-8 : ℝ) (-2.0963e-8) ∧
+    boundaryMismatch (𝕃 inf) 4 ∈ Set.Icc (1.9729e-8 : ℝ) (1.9730e-8) ∧
+    boundaryMismatch (𝕃 inf) 5 ∈ Set.Icc (-2.9783e-8 : ℝ) (-2.9782e-8) ∧
+    boundaryMismatch (𝕃 inf) 6 ∈ Set.Icc (-3.3632e-8 : ℝ) (-3.3631e-8) ∧
+    boundaryMismatch (𝕃 inf) 7 ∈ Set.Icc (-1.40681e-7 : ℝ) (-1.40680e-7) := by
+  refine ⟨?_, ?_, ?_, ?_, ?_, ?_, ?_⟩
+  · have h := AtmNumeric.eps1 inf
+    change _ ≤ Real.log (pressureInLayer (𝕃 inf) 0 (nth (𝕃 inf).hb 1) / nth (𝕃 inf).pb 1) ∧
+      Real.log (pressureInLayer (𝕃 inf) 0 (nth (𝕃 inf).hb 1) / nth (𝕃 inf).pb 1) ≤ _
+    constructor <;> linarith [h.1, h.2]
+  · have h := AtmNumeric.eps2 inf
+    change _ ≤ Real.log (pressureInLayer (𝕃 inf) 1 (nth (𝕃 inf).hb 2) / nth (𝕃 inf).pb 2) ∧
+      Real.log (pressureInLayer (𝕃 inf) 1 (nth (𝕃 inf).hb 2) / nth (𝕃 inf).pb 2) ≤ _
+    constructor <;> linarith [h.1, h.2]
+  · have h := AtmNumeric.eps3 inf
+    change _ ≤ Real.log (pressureInLayer (𝕃 inf) 2 (nth (𝕃 inf).hb 3) / nth (𝕃 inf).pb 3) ∧
+      Real.log (pressureInLayer (𝕃 inf) 2 (nth (𝕃 inf).hb 3) / nth (𝕃 inf).pb 3) ≤ _
+    constructor <;> linarith [h.1, h.2]
+  · have h := AtmNumeric.eps4 inf
+    change _ ≤ Real.log (pressureInLayer (𝕃 inf) 3 (nth (𝕃 inf).hb 4) / nth (𝕃 inf).pb 4) ∧
+      Real.log (pressureInLayer (𝕃 inf) 3 (nth (𝕃 inf).hb 4) / nth (𝕃 inf).pb 4) ≤ _
+    constructor <;> linarith [h.1, h.2]
+  · have h := AtmNumeric.eps5 inf
+    change _ ≤ Real.log (pressureInLayer (𝕃 inf) 4 (nth (𝕃 inf).hb 5) / nth (𝕃 inf).pb 5) ∧
+      Real.log (pressureInLayer (𝕃 inf) 4 (nth (𝕃 inf).hb 5) / nth (𝕃 inf).pb 5) ≤ _
+    constructor <;> linarith [h.1, h.2]
+  · have h := AtmNumeric.eps6 inf
+    change _ ≤ Real.log (pressureInLayer (𝕃 inf) 5 (nth (𝕃 inf).hb 6) / nth (𝕃 inf).pb 6) ∧
+      Real.log (pressureInLayer (𝕃 inf) 5 (nth (𝕃 inf).hb 6) / nth (𝕃 inf).pb 6) ≤ _
+    constructor <;> linarith [h.1, h.2]
+  · have h := AtmNumeric.eps7 inf
+    change _ ≤ Real.log (pressureInLayer (𝕃 inf) 6 (nth (𝕃 inf).hb 7) / nth (𝕃 inf).pb 7) ∧
+      Real.log (pressureInLayer (𝕃 inf) 6 (nth (𝕃 inf).hb 7) / nth (𝕃 inf).pb 7) ≤ _
+    constructor <;> linarith [h.1, h.2]
+
+/-- every boundary mismatch of the regenerated table is at most 1.41e-7 in absolute value -/
+theorem boundary_mismatch_le (inf : ℝ) (j : Nat) (h1 : 1 ≤ j) (h7 : j ≤ 7) :
+    |boundaryMismatch (𝕃 inf) j| ≤ 1.41e-7 :=
+  le_trans (AtmNumeric.abs_eps_le inf j h1 h7) (by norm_num)
+
+/-- **steps ≤ 3e-7 relative**: at each of the seven layer boundaries the tabulated base pressure differs from
+the continuation of the layer below by at most 3e-7 of it (either direction) -/
+theorem pressure_steps_3e7 (inf : ℝ) (j : Nat) (h1 : 1 ≤ j) (h7 : j ≤ 7) :
+    |nth (𝕃 inf).pb j - pressureInLayer (𝕃 inf) (j - 1) (nth (𝕃 inf).hb j)|
+      ≤ 3e-7 * pressureInLayer (𝕃 inf) (j - 1) (nth (𝕃 inf).hb j) :=
+  AtmNumeric.step_rel inf j h1 h7
+
+/-- … in particular the upward step is at most the factor `1 + 3e-7`, and the continuation is positive -/
+theorem pressure_step_up_le (inf : ℝ) (j : Nat) (h1 : 1 ≤ j) (h7 : j ≤ 7) :
+    0 < pressureInLayer (𝕃 inf) (j - 1) (nth (𝕃 inf).hb j) ∧
+    nth (𝕃 inf).pb j ≤ (1 + 3e-7) * pressureInLayer (𝕃 inf) (j - 1) (nth (𝕃 inf).hb j) := by
+  have h := (abs_le.mp (pressure_steps_3e7 inf j h1 h7)).2
+  obtain ⟨i, rfl⟩ : ∃ i, j = i + 1 := ⟨j - 1, by omega⟩
+  have hp := AtmNumeric.below_pos inf i (by omega)
+  simp only [Nat.add_sub_cancel] at h ⊢
+  exact ⟨hp, by linarith⟩
+
+/-- the round trip z → P → z for the regenerated table, one-sided and sharp to the measured maximum
+(7.9e-7 km, in the sliver below 84.852 km): the returned altitude is never below `z` and exceeds it by at most
+8e-7 km -/
+theorem roundtrip_8e7 (inf z : ℝ) (hinf : 6371 ≤ inf) (hz0 : 0 ≤ z) (hz1 : z ≤ 120) :
+    0 ≤ altitudeFromPressure (𝕃 inf) (pressureFromAltitude (𝕃 inf) z) - z ∧
+    altitudeFromPressure (𝕃 inf) (pressureFromAltitude (𝕃 inf) z) - z ≤ 8e-7 := by
+  have W := generated_wellFormed inf hinf
+  have hzi : z < (𝕃 inf).inf := by
+    show z < inf
+    linarith
+  by_cases hP : nth (𝕃 inf).pb (layerOfHeight (𝕃 inf) (geopotential (𝕃 inf) z) + 1)
+      < pressureFromAltitude (𝕃 inf) z
+  · rw [layer_choice_consistent_generated inf z hinf hz0 (by linarith) hP]
+    norm_num
+  have hP := not_lt.mp hP
+  have hRpos := W.R_pos
+  obtain ⟨hh0, hhR⟩ := geopotential_range hRpos hz0
+  have hgeo : geopotential (𝕃 inf) z = z * (𝕃 inf).earthRadius / (z + (𝕃 inf).earthRadius) := rfl
+  rw [← hgeo] at hh0 hhR
+  obtain ⟨hi8, hlo, hhi⟩ := layerOfHeight_spec W (geopotential (𝕃 inf) z) hh0 hhR
+  have hfa : pressureFromAltitude (𝕃 inf) z
+      = pressureInLayer (𝕃 inf) (layerOfHeight (𝕃 inf) (geopotential (𝕃 inf) z)) (geopotential (𝕃 inf) z) := by
+    simp [pressureFromAltitude, hzi]
+  obtain ⟨i, hi⟩ : ∃ i, layerOfHeight (𝕃 inf) (geopotential (𝕃 inf) z) = i := ⟨_, rfl⟩
+  rw [hi] at hP hi8 hlo hhi hfa
+  -- layers 0, 3 (downward step) and 7 (top layer, next base pressure 0) have no sliver
+  have hno : ∀ k, k = 0 ∨ k = 3 ∨ k = 7 → i = k →
+      nth (𝕃 inf).pb (k + 1) < pressureInLayer (𝕃 inf) k (nth (𝕃 inf).hb (k + 1)) → False := by
+    intro k _ hik hdown
+    subst hik
+    have := no_sliver W i hi8 hdown _ hlo hhi.le
+    rw [hfa] at hP
+    linarith
+  interval_cases i
+  · exact (hno 0 (by norm_num) rfl (AtmNumeric.step_down inf 0 (by norm_num))).elim
+  ·
+    have hs := sliver_altitude W 1 (by norm_num) (3.2e-8) (216.66) (0) (1) 86 (by norm_num)
+      (le_trans (AtmNumeric.up2 inf) (by norm_num))
+      (by simp [Gen.AtmConsts.layers, nth] <;> norm_num) (by norm_num)
+      (by simp [Gen.AtmConsts.layers, nth] <;> norm_num) (by simp [Gen.AtmConsts.layers, nth] <;> norm_num)
+      (by norm_num) (by simp [Gen.AtmConsts.layers, nth] <;> norm_num)
+      (by simp [Gen.AtmConsts.layers, nth] <;> norm_num) (by simp [Gen.AtmConsts.layers, nth] <;> norm_num)
+      (by simp [Gen.AtmConsts.layers] <;> norm_num) z hz0 hzi hi hP
+    have hb : (𝕃 inf).earthRadius ^ 2 * ((216.66) / (𝕃 inf).gmr * (3.2e-8))
+        / ((𝕃 inf).earthRadius - 86) ^ 2 ≤ (8e-7 : ℝ) := by
+      simp [Gen.AtmConsts.layers] <;> norm_num
+    exact ⟨hs.1, le_trans hs.2 hb⟩
+  ·
+    have hs := sliver_altitude W 2 (by norm_num) (2.1e-8) (228.66) (0) (3) 86 (by norm_num)
+      (le_trans (AtmNumeric.up3 inf) (by norm_num))
+      (by simp [Gen.AtmConsts.layers, nth] <;> norm_num) (by norm_num)
+      (by simp [Gen.AtmConsts.layers, nth] <;> norm_num) (by simp [Gen.AtmConsts.layers, nth] <;> norm_num)
+      (by norm_num) (by simp [Gen.AtmConsts.layers, nth] <;> norm_num)
+      (by simp [Gen.AtmConsts.layers, nth] <;> norm_num) (by simp [Gen.AtmConsts.layers, nth] <;> norm_num)
+      (by simp [Gen.AtmConsts.layers] <;> norm_num) z hz0 hzi hi hP
+    have hb : (𝕃 inf).earthRadius ^ 2 * ((228.66) / (𝕃 inf).gmr * (2.1e-8))
+        / ((𝕃 inf).earthRadius - 86) ^ 2 ≤ (8e-7 : ℝ) := by
+      simp [Gen.AtmConsts.layers] <;> norm_num
+    exact ⟨hs.1, le_trans hs.2 hb⟩
+  · exact (hno 3 (by norm_num) rfl (AtmNumeric.step_down inf 3 (by norm_num))).elim
+  ·
+    have hs := sliver_altitude W 4 (by norm_num) (3e-8) (270.66) (0) (0) 86 (by norm_num)
+      (le_trans (AtmNumeric.up5 inf) (by norm_num))
+      (by simp [Gen.AtmConsts.layers, nth] <;> norm_num) (by norm_num)
+      (by simp [Gen.AtmConsts.layers, nth] <;> norm_num) (by simp [Gen.AtmConsts.layers, nth] <;> norm_num)
+      (by norm_num) (by simp [Gen.AtmConsts.layers, nth] <;> norm_num)
+      (by simp [Gen.AtmConsts.layers, nth] <;> norm_num) (by simp [Gen.AtmConsts.layers, nth] <;> norm_num)
+      (by simp [Gen.AtmConsts.layers] <;> norm_num) z hz0 hzi hi hP
+    have hb : (𝕃 inf).earthRadius ^ 2 * ((270.66) / (𝕃 inf).gmr * (3e-8))
+        / ((𝕃 inf).earthRadius - 86) ^ 2 ≤ (8e-7 : ℝ) := by
+      simp [Gen.AtmConsts.layers] <;> norm_num
+    exact ⟨hs.1, le_trans hs.2 hb⟩
+  ·
+    have hs := sliver_altitude W 5 (by norm_num) (3.4e-8) (214.66) (3) (0) 86 (by norm_num)
+      (le_trans (AtmNumeric.up6 inf) (by norm_num))
+      (by simp [Gen.AtmConsts.layers, nth] <;> norm_num) (by norm_num)
+      (by simp [Gen.AtmConsts.layers, nth] <;> norm_num) (by simp [Gen.AtmConsts.layers, nth] <;> norm_num)
+      (by norm_num) (by simp [Gen.AtmConsts.layers, nth] <;> norm_num)
+      (by simp [Gen.AtmConsts.layers, nth] <;> norm_num) (by simp [Gen.AtmConsts.layers, nth] <;> norm_num)
+      (by simp [Gen.AtmConsts.layers] <;> norm_num) z hz0 hzi hi hP
+    have hb : (𝕃 inf).earthRadius ^ 2 * ((214.66) / (𝕃 inf).gmr * (3.4e-8))
+        / ((𝕃 inf).earthRadius - 86) ^ 2 ≤ (8e-7 : ℝ) := by
+      simp [Gen.AtmConsts.layers] <;> norm_num
+    exact ⟨hs.1, le_trans hs.2 hb⟩
+  ·
+    have hs := sliver_altitude W 6 (by norm_num) (1.407e-7) (186.95) (2) (0) 86 (by norm_num)
+      (le_trans (AtmNumeric.up7 inf) (by norm_num))
+      (by simp [Gen.AtmConsts.layers, nth] <;> norm_num) (by norm_num)
+      (by simp [Gen.AtmConsts.layers, nth] <;> norm_num) (by simp [Gen.AtmConsts.layers, nth] <;> norm_num)
+      (by norm_num) (by simp [Gen.AtmConsts.layers, nth] <;> norm_num)
+      (by simp [Gen.AtmConsts.layers, nth] <;> norm_num) (by simp [Gen.AtmConsts.layers, nth] <;> norm_num)
+      (by simp [Gen.AtmConsts.layers] <;> norm_num) z hz0 hzi hi hP
+    have hb : (𝕃 inf).earthRadius ^ 2 * ((186.95) / (𝕃 inf).gmr * (1.407e-7))
+        / ((𝕃 inf).earthRadius - 86) ^ 2 ≤ (8e-7 : ℝ) := by
+      simp [Gen.AtmConsts.layers] <;> norm_num
+    exact ⟨hs.1, le_trans hs.2 hb⟩
+  · refine (hno 7 (by norm_num) rfl ?_).elim
+    have h8 : nth (𝕃 inf).pb (7 + 1) = 0 := by simp [Gen.AtmConsts.layers, nth]
+    rw [h8]
+    obtain ⟨hT, hPb, _⟩ := W.layer 7 (by norm_num)
+    apply pressure_pos _ 7 _ hPb hT
+    have hl : nth (𝕃 inf).lm 7 = 0 := by simp [Gen.AtmConsts.layers, nth]
+    rw [hl]; simpa using hT
+
+/-- **the tolerance clause of C19 (z → P → z)**, for every altitude of the model range -/
 theorem roundtrip_1e6 (inf z : ℝ) (hinf : 6371 ≤ inf) (hz0 : 0 ≤ z) (hz1 : z ≤ 120) :
-    |altitudeFromPressure (Gen.AtmConsts.layers inf) (pressureFromAltitude (Gen.AtmConsts.layers inf) z) - z| ≤ 1e-6
+    |altitudeFromPressure (𝕃 inf) (pressureFromAltitude (𝕃 inf) z) - z| ≤ 1e-6 := by
+  obtain ⟨h1, h2⟩ := roundtrip_8e7 inf z hinf hz0 hz1
+  rw [abs_of_nonneg h1]
+  exact le_trans h2 (by norm_num)
 
-What is missing: the seven numeric facts |log(P_{j-1}(H_j)/P_j)| ≤ 1.41e-7 for the regenerated table (they need
-1e-9-accurate interval bounds for `exp`/`rpow`/`log` at rational arguments, which Mathlib has no tactic for), and
-the bookkeeping that combines `layer_choice_consistent` (outside the slivers) with `roundtrip_parametric` (inside)
-and the factor (R/(R−H))² ≤ 1.03 of the geopotential → geometric map.  The driver EVALUATES the ε_j on every run
-(evidence key `boundary_mismatch_eps_evaluated_not_proved`). -/
+/-! ### the regenerated table, the other direction P → z → P -/
+
+/-- the model top z = 120 km lies in the top layer (geopotential height 117.78 km); its pressure is positive and
+below the base pressure of that layer -/
+theorem model_top (inf : ℝ) (hinf : 6371 ≤ inf) :
+    geopotential (𝕃 inf) 120 = 120 * 6371 / (120 + 6371) ∧
+    pressureFromAltitude (𝕃 inf) 120 = pressureInLayer (𝕃 inf) 7 (geopotential (𝕃 inf) 120) ∧
+    0 < pressureFromAltitude (𝕃 inf) 120 ∧
+    pressureFromAltitude (𝕃 inf) 120 ≤ nth (𝕃 inf).pb 7 := by
+  have W := generated_wellFormed inf hinf
+  have hR : (𝕃 inf).earthRadius = 6371 := by simp [Gen.AtmConsts.layers]
+  have hinf' : (𝕃 inf).inf = inf := rfl
+  have hb8 : nth (𝕃 inf).hb 8 = inf := by simp [Gen.AtmConsts.layers, nth]
+  have hl7 : nth (𝕃 inf).lm 7 = 0 := by simp [Gen.AtmConsts.layers, nth]
+  have h120 : geopotential (𝕃 inf) 120 = 120 * 6371 / (120 + 6371) := by
+    simp [geopotential, Gen.AtmConsts.layers]
+  have hlo : nth (𝕃 inf).hb 7 ≤ geopotential (𝕃 inf) 120 := by
+    rw [h120]; simp [Gen.AtmConsts.layers, nth] <;> norm_num
+  have htop : pressureFromAltitude (𝕃 inf) 120 = pressureInLayer (𝕃 inf) 7 (geopotential (𝕃 inf) 120) := by
+    have hfa : pressureFromAltitude (𝕃 inf) 120
+        = pressureInLayer (𝕃 inf) (layerOfHeight (𝕃 inf) (geopotential (𝕃 inf) 120)) (geopotential (𝕃 inf) 120) := by
+      have : (120 : ℝ) < (𝕃 inf).inf := by rw [hinf']; linarith
+      simp [pressureFromAltitude, this]
+    rw [hfa, layerOfHeight_same W 7 (by norm_num) _ (by rw [h120]; norm_num) (by rw [h120, hR]; norm_num)
+      hlo (by rw [h120, hb8]; norm_num; linarith)]
+  obtain ⟨hT7, hP7, _⟩ := W.layer 7 (by norm_num)
+  have t7 : ∀ h, 0 < nth (𝕃 inf).tb 7 + nth (𝕃 inf).lm 7 * (h - nth (𝕃 inf).hb 7) := by
+    intro h; rw [hl7]; simpa using hT7
+  refine ⟨h120, htop, by rw [htop]; exact pressure_pos _ 7 _ hP7 hT7 (t7 _), ?_⟩
+  rw [htop]
+  have := pressure_antitone _ 7 _ _ hP7 hT7 W.g_pos (t7 _) (t7 _) hlo
+  rwa [pressure_at_base _ 7 hT7] at this
+
+/-- the round trip P → z → P for the regenerated table, for every real pressure between the pressure of the
+model top (z = 120 km) and the surface value: the returned pressure is never above `P` and falls short of it
+by at most 4e-8 relative (exactly `P` except in the two gaps above the downward steps at 11 km and 47 km) -/
+theorem inverse_forward_4e8 (inf P : ℝ) (hinf : 6371 ≤ inf)
+    (hPtop : pressureFromAltitude (𝕃 inf) 120 ≤ P) (hP1 : P ≤ 101325) :
+    0 ≤ P - pressureFromAltitude (𝕃 inf) (altitudeFromPressure (𝕃 inf) P) ∧
+    P - pressureFromAltitude (𝕃 inf) (altitudeFromPressure (𝕃 inf) P) ≤ 4e-8 * P := by
+  have W := generated_wellFormed inf hinf
+  have hg := W.g_pos
+  have hR : (𝕃 inf).earthRadius = 6371 := by simp [Gen.AtmConsts.layers]
+  have hinf' : (𝕃 inf).inf = inf := rfl
+  have hb8 : nth (𝕃 inf).hb 8 = inf := by simp [Gen.AtmConsts.layers, nth]
+  have hb7 : nth (𝕃 inf).hb 7 ≤ 85 := by simp [Gen.AtmConsts.layers, nth] <;> norm_num
+  have hb0 : nth (𝕃 inf).hb 0 = 0 := by simp [Gen.AtmConsts.layers, nth]
+  have hl7 : nth (𝕃 inf).lm 7 = 0 := by simp [Gen.AtmConsts.layers, nth]
+  -- forward value at the geometric altitude of a geopotential height `H ≤ 118` of layer `m`
+  have hfwd : ∀ (m : Nat) (H : ℝ), m < 8 → H ≤ 118 → nth (𝕃 inf).hb m ≤ H → H < nth (𝕃 inf).hb (m + 1) →
+      pressureFromAltitude (𝕃 inf) (geometric (𝕃 inf) H) = pressureInLayer (𝕃 inf) m H := by
+    intro m H hm h118 hlo hhi
+    have h0 : 0 ≤ H := by
+      rcases Nat.eq_zero_or_pos m with rfl | hmpos
+      · linarith
+      · have := W.hb_mono 0 m hmpos (by omega); linarith
+    have hHR : H < (𝕃 inf).earthRadius := by rw [hR]; linarith
+    have hz0 : 0 ≤ geometric (𝕃 inf) H := by
+      show 0 ≤ (𝕃 inf).earthRadius * H / ((𝕃 inf).earthRadius - H)
+      apply div_nonneg (mul_nonneg W.R_pos.le h0); linarith
+    have hzi : geometric (𝕃 inf) H < (𝕃 inf).inf := by
+      show (𝕃 inf).earthRadius * H / ((𝕃 inf).earthRadius - H) < inf
+      rw [hR, div_lt_iff₀ (by linarith)]
+      nlinarith
+    have hgg : geopotential (𝕃 inf) (geometric (𝕃 inf) H) = H :=
+      geopotential_geometric (by linarith) W.R_pos.ne'
+    have hfa : pressureFromAltitude (𝕃 inf) (geometric (𝕃 inf) H)
+        = pressureInLayer (𝕃 inf) (layerOfHeight (𝕃 inf) (geopotential (𝕃 inf) (geometric (𝕃 inf) H)))
+            (geopotential (𝕃 inf) (geometric (𝕃 inf) H)) := by
+      simp [pressureFromAltitude, hzi]
+    rw [hfa, hgg, layerOfHeight_same W m hm H h0 hHR hlo hhi]
+  obtain ⟨h120, htop, htoppos, _⟩ := model_top inf hinf
+  obtain ⟨hT7, hP7, _⟩ := W.layer 7 (by norm_num)
+  have hP0 : 0 < P := lt_of_lt_of_le htoppos hPtop
+  -- the inverse
+  obtain ⟨hk, hgt, hle⟩ := layerOfPressure_spec W (by simp [Gen.AtmConsts.layers, nth]) P hP0
+    (by simp [Gen.AtmConsts.layers, nth]; linarith)
+  have halt : altitudeFromPressure (𝕃 inf) P
+      = geometric (𝕃 inf) (heightInLayer (𝕃 inf) (layerOfPressure (𝕃 inf) P) P) := by
+    simp [altitudeFromPressure, hP0]
+  rw [halt]
+  obtain ⟨k, hkdef⟩ : ∃ k, layerOfPressure (𝕃 inf) P = k := ⟨_, rfl⟩
+  rw [hkdef] at hk hgt hle ⊢
+  obtain ⟨hge, hTpos, hinv⟩ := inverse_in_layer W k hk P hP0 hle
+  obtain ⟨H, hHdef⟩ : ∃ H, heightInLayer (𝕃 inf) k P = H := ⟨_, rfl⟩
+  rw [hHdef] at hge hTpos hinv ⊢
+  -- in the top layer the returned height does not exceed that of the model top
+  have htop118 : k = 7 → H ≤ 118 := by
+    intro hk7
+    subst hk7
+    by_contra hcon
+    have hcon := not_le.mp hcon
+    have hlt : geopotential (𝕃 inf) 120 < H := by rw [h120]; linarith
+    have : pressureInLayer (𝕃 inf) 7 H < pressureInLayer (𝕃 inf) 7 (geopotential (𝕃 inf) 120) := by
+      rw [pressureInLayer_iso _ 7 _ hl7, pressureInLayer_iso _ 7 _ hl7]
+      exact Piso_strictAnti hP7 hT7 hg hlt
+    rw [hinv, ← htop] at this
+    linarith
+  by_cases hin : H < nth (𝕃 inf).hb (k + 1)
+  · -- same layer on the way back: exact
+    have h118 : H ≤ 118 := by
+      rcases Nat.eq_or_lt_of_le (show k ≤ 7 by omega) with h7 | h7
+      · exact htop118 h7
+      · have : nth (𝕃 inf).hb (k + 1) ≤ nth (𝕃 inf).hb 7 := by
+          rcases Nat.eq_or_lt_of_le (show k + 1 ≤ 7 by omega) with e | e
+          · rw [e]
+          · exact (W.hb_mono (k + 1) 7 e (by norm_num)).le
+        linarith
+    rw [hfwd k H hk h118 hge hin, hinv]
+    constructor <;> nlinarith
+  have hin := not_lt.mp hin
+  -- the returned height is at or beyond the next boundary: only above a downward step
+  have hnogap : k = 1 ∨ k = 2 ∨ k = 4 ∨ k = 5 ∨ k = 6 → False := by
+    intro hk'
+    have hup := AtmNumeric.step_up inf k hk'
+    obtain ⟨hTk, hPk, hnegk⟩ := W.layer k hk
+    have hHH : nth (𝕃 inf).hb k < nth (𝕃 inf).hb (k + 1) := W.hb_mono k (k + 1) (by omega) (by omega)
+    have t2 : 0 < nth (𝕃 inf).tb k + nth (𝕃 inf).lm k * (nth (𝕃 inf).hb (k + 1) - nth (𝕃 inf).hb k) := by
+      by_cases hl : nth (𝕃 inf).lm k < 0
+      · exact hnegk hl
+      · have : 0 ≤ nth (𝕃 inf).lm k * (nth (𝕃 inf).hb (k + 1) - nth (𝕃 inf).hb k) :=
+          mul_nonneg (not_lt.mp hl) (by linarith)
+        linarith
+    have := pressure_antitone _ k _ H hPk hTk hg t2 hTpos hin
+    rw [hinv] at this
+    linarith
+  interval_cases k
+  ·
+    have hg := gap_forward W 0 (by norm_num) (1.1229e-8) (0)
+      (le_trans (AtmNumeric.eps1 inf).2 (by norm_num))
+      (by norm_num) (by simp [Gen.AtmConsts.layers, nth] <;> norm_num)
+      (by simp [Gen.AtmConsts.layers] <;> norm_num) (by simp [Gen.AtmConsts.layers, nth])
+      _ hin hTpos (by rw [hinv]; exact hgt)
+    obtain ⟨hδ, hP'pos, hP'le, hlog⟩ := hg
+    have hD : 1.1229e-8 * (nth (𝕃 inf).tb 0 + nth (𝕃 inf).lm 0 * (nth (𝕃 inf).hb (0 + 1) - nth (𝕃 inf).hb 0))
+        / ((𝕃 inf).gmr - 1.1229e-8 * 0) ≤ (1e-6 : ℝ) := by
+      simp [Gen.AtmConsts.layers, nth] <;> norm_num
+    have hδ' : H - nth (𝕃 inf).hb (0 + 1) ≤ 1e-6 := le_trans hδ hD
+    have hb1 : nth (𝕃 inf).hb (0 + 1) + 1e-6 < nth (𝕃 inf).hb (0 + 1 + 1) := by
+      simp [Gen.AtmConsts.layers, nth] <;> norm_num
+    have hb2 : nth (𝕃 inf).hb (0 + 1) ≤ 118 - 1e-6 := by
+      simp [Gen.AtmConsts.layers, nth] <;> norm_num
+    rw [hfwd (0 + 1) H (by norm_num) (by linarith) hin (by linarith)]
+    have hη : Real.log (pressureInLayer (𝕃 inf) 0 H / pressureInLayer (𝕃 inf) (0 + 1) H) ≤ 4e-8 := by
+      refine le_trans hlog ?_
+      have : (𝕃 inf).gmr * (H - nth (𝕃 inf).hb (0 + 1)) / nth (𝕃 inf).tb (0 + 1)
+          ≤ (𝕃 inf).gmr * (1.1229e-8 * (nth (𝕃 inf).tb 0 + nth (𝕃 inf).lm 0 * (nth (𝕃 inf).hb (0 + 1) - nth (𝕃 inf).hb 0))
+            / ((𝕃 inf).gmr - 1.1229e-8 * 0)) / nth (𝕃 inf).tb (0 + 1) := by
+        apply div_le_div_of_nonneg_right _ (W.layer (0 + 1) (by norm_num)).1.le
+        exact mul_le_mul_of_nonneg_left hδ W.g_pos.le
+      refine le_trans (add_le_add_right this _) ?_
+      simp [Gen.AtmConsts.layers, nth] <;> norm_num
+    rw [hinv] at hη
+    exact rel_below hP0 hP'pos (by linarith) hη
+  · exact (hnogap (by norm_num)).elim
+  · exact (hnogap (by norm_num)).elim
+  ·
+    have hg := gap_forward W 3 (by norm_num) (1.973e-8) (3)
+      (le_trans (AtmNumeric.eps4 inf).2 (by norm_num))
+      (by norm_num) (by simp [Gen.AtmConsts.layers, nth] <;> norm_num)
+      (by simp [Gen.AtmConsts.layers] <;> norm_num) (by simp [Gen.AtmConsts.layers, nth])
+      _ hin hTpos (by rw [hinv]; exact hgt)
+    obtain ⟨hδ, hP'pos, hP'le, hlog⟩ := hg
+    have hD : 1.973e-8 * (nth (𝕃 inf).tb 3 + nth (𝕃 inf).lm 3 * (nth (𝕃 inf).hb (3 + 1) - nth (𝕃 inf).hb 3))
+        / ((𝕃 inf).gmr - 1.973e-8 * 3) ≤ (1e-6 : ℝ) := by
+      simp [Gen.AtmConsts.layers, nth] <;> norm_num
+    have hδ' : H - nth (𝕃 inf).hb (3 + 1) ≤ 1e-6 := le_trans hδ hD
+    have hb1 : nth (𝕃 inf).hb (3 + 1) + 1e-6 < nth (𝕃 inf).hb (3 + 1 + 1) := by
+      simp [Gen.AtmConsts.layers, nth] <;> norm_num
+    have hb2 : nth (𝕃 inf).hb (3 + 1) ≤ 118 - 1e-6 := by
+      simp [Gen.AtmConsts.layers, nth] <;> norm_num
+    rw [hfwd (3 + 1) H (by norm_num) (by linarith) hin (by linarith)]
+    have hη : Real.log (pressureInLayer (𝕃 inf) 3 H / pressureInLayer (𝕃 inf) (3 + 1) H) ≤ 4e-8 := by
+      refine le_trans hlog ?_
+      have : (𝕃 inf).gmr * (H - nth (𝕃 inf).hb (3 + 1)) / nth (𝕃 inf).tb (3 + 1)
+          ≤ (𝕃 inf).gmr * (1.973e-8 * (nth (𝕃 inf).tb 3 + nth (𝕃 inf).lm 3 * (nth (𝕃 inf).hb (3 + 1) - nth (𝕃 inf).hb 3))
+            / ((𝕃 inf).gmr - 1.973e-8 * 3)) / nth (𝕃 inf).tb (3 + 1) := by
+        apply div_le_div_of_nonneg_right _ (W.layer (3 + 1) (by norm_num)).1.le
+        exact mul_le_mul_of_nonneg_left hδ W.g_pos.le
+      refine le_trans (add_le_add_right this _) ?_
+      simp [Gen.AtmConsts.layers, nth] <;> norm_num
+    rw [hinv] at hη
+    exact rel_below hP0 hP'pos (by linarith) hη
+  · exact (hnogap (by norm_num)).elim
+  · exact (hnogap (by norm_num)).elim
+  · exact (hnogap (by norm_num)).elim
+  · have := htop118 rfl
+    rw [hb8] at hin
+    linarith
+
+/-- **the tolerance clause of C19 (P → z → P)**, for every pressure between the model top and the surface -/
+theorem inverse_forward_1e6 (inf P : ℝ) (hinf : 6371 ≤ inf)
+    (hPtop : pressureFromAltitude (𝕃 inf) 120 ≤ P) (hP1 : P ≤ 101325) :
+    |pressureFromAltitude (𝕃 inf) (altitudeFromPressure (𝕃 inf) P) - P| ≤ 1e-6 * P := by
+  obtain ⟨h1, h2⟩ := inverse_forward_4e8 inf P hinf hPtop hP1
+  have hP0 : 0 ≤ P := by nlinarith
+  rw [abs_sub_comm, abs_of_nonneg h1]
+  nlinarith
+
+/-! ### the regenerated table: positivity and monotonicity up to the steps -/
+
+/-- the forward pressure of the regenerated table is positive on [0, 120] km -/
+theorem pressure_positive_generated (inf z : ℝ) (hinf : 6371 ≤ inf) (hz0 : 0 ≤ z) (hz1 : z ≤ 120) :
+    0 < pressureFromAltitude (𝕃 inf) z :=
+  pressure_positive (generated_wellFormed inf hinf) z hz0 (by show z < inf; linarith)
+
+/-- **non-increasing up to steps ≤ 3e-7**: for the regenerated table and all `0 ≤ z₁ ≤ z₂ ≤ 120` km, the pressure at
+the higher altitude exceeds the pressure at the lower one by at most 3e-7 relative — across ANY number of layer
+boundaries (the five upward steps add up to 2.57e-7) -/
+theorem pressure_nonincreasing_up_to_3e7 (inf z1 z2 : ℝ) (hinf : 6371 ≤ inf) (hz0 : 0 ≤ z1) (hz : z1 ≤ z2)
+    (hz1 : z2 ≤ 120) :
+    pressureFromAltitude (𝕃 inf) z2 ≤ (1 + 3e-7) * pressureFromAltitude (𝕃 inf) z1 := by
+  have W := generated_wellFormed inf hinf
+  have hstep : ∀ j, j + 1 < 8 → nth (𝕃 inf).pb (j + 1)
+      ≤ Real.exp (AtmNumeric.cumSteps (j + 1) - AtmNumeric.cumSteps j) * pressureInLayer (𝕃 inf) j (nth (𝕃 inf).hb (j + 1)) := by
+    intro j hj
+    have hj7 : j < 7 := by omega
+    interval_cases j
+    · have hle : Real.log (nth (𝕃 inf).pb 1 / pressureInLayer (𝕃 inf) 0 (nth (𝕃 inf).hb 1)) ≤ 0 := by
+        rw [AtmNumeric.log_swap]; have := (AtmNumeric.eps1 inf).1; norm_num at this ⊢; linarith
+      exact pressure_step_le _ 0 _ (AtmNumeric.pb_pos inf 1 (by norm_num)) (AtmNumeric.below_pos inf 0 (by norm_num))
+        (le_trans hle (by simp [AtmNumeric.cumSteps] <;> norm_num))
+    · exact pressure_step_le _ 1 _ (AtmNumeric.pb_pos inf 2 (by norm_num)) (AtmNumeric.below_pos inf 1 (by norm_num))
+        (le_trans (AtmNumeric.up2 inf) (by simp [AtmNumeric.cumSteps] <;> norm_num))
+    · exact pressure_step_le _ 2 _ (AtmNumeric.pb_pos inf 3 (by norm_num)) (AtmNumeric.below_pos inf 2 (by norm_num))
+        (le_trans (AtmNumeric.up3 inf) (by simp [AtmNumeric.cumSteps] <;> norm_num))
+    · have hle : Real.log (nth (𝕃 inf).pb 4 / pressureInLayer (𝕃 inf) 3 (nth (𝕃 inf).hb 4)) ≤ 0 := by
+        rw [AtmNumeric.log_swap]; have := (AtmNumeric.eps4 inf).1; norm_num at this ⊢; linarith
+      exact pressure_step_le _ 3 _ (AtmNumeric.pb_pos inf 4 (by norm_num)) (AtmNumeric.below_pos inf 3 (by norm_num))
+        (le_trans hle (by simp [AtmNumeric.cumSteps] <;> norm_num))
+    · exact pressure_step_le _ 4 _ (AtmNumeric.pb_pos inf 5 (by norm_num)) (AtmNumeric.below_pos inf 4 (by norm_num))
+        (le_trans (AtmNumeric.up5 inf) (by simp [AtmNumeric.cumSteps] <;> norm_num))
+    · exact pressure_step_le _ 5 _ (AtmNumeric.pb_pos inf 6 (by norm_num)) (AtmNumeric.below_pos inf 5 (by norm_num))
+        (le_trans (AtmNumeric.up6 inf) (by simp [AtmNumeric.cumSteps] <;> norm_num))
+    · exact pressure_step_le _ 6 _ (AtmNumeric.pb_pos inf 7 (by norm_num)) (AtmNumeric.below_pos inf 6 (by norm_num))
+        (le_trans (AtmNumeric.up7 inf) (by simp [AtmNumeric.cumSteps] <;> norm_num))
+  have hC : ∀ i j, i ≤ j → j < 8 → AtmNumeric.cumSteps j - AtmNumeric.cumSteps i ≤ 256817e-12 := by
+    intro i j hij hj
+    interval_cases j <;> interval_cases i <;> simp [AtmNumeric.cumSteps] <;> norm_num
+  have h := pressure_monotone_up_to_steps W AtmNumeric.cumSteps 256817e-12 hstep hC z1 z2 hz0 hz (by show z2 < inf; linarith)
+  have hpos := pressure_positive_generated inf z1 hinf hz0 (by linarith)
+  have hexp : Real.exp (256817e-12 : ℝ) ≤ 1 + 3e-7 := exp_le_one_add_of (by norm_num) (by norm_num)
+  exact le_trans h (mul_le_mul_of_nonneg_right hexp hpos.le)
 
 /-! ### end cases z = ∞ ↔ P = 0 -/
 
@@ -329,14 +1220,14 @@ theorem altitude_of_zero (L : Layers ℝ) (P : ℝ) (hP : P ≤ 0) : altitudeFro
 
 /-- for the regenerated table: z = ∞ ↦ P = 0 and P = 0 ↦ z = ∞ -/
 theorem zero_inf (inf : ℝ) :
-    pressureFromAltitude (Gen.AtmConsts.layers inf) inf = 0 ∧
-    altitudeFromPressure (Gen.AtmConsts.layers inf) 0 = inf := by
+    pressureFromAltitude (𝕃 inf) inf = 0 ∧
+    altitudeFromPressure (𝕃 inf) 0 = inf := by
   constructor
-  · have hsel : layerOfHeight (Gen.AtmConsts.layers inf) inf = 8 := by
+  · have hsel : layerOfHeight (𝕃 inf) inf = 8 := by
       rw [layerOfHeight_eq]
       rw [lastIdx_eq _ (0:ℝ) _ 1 0 7 (by simp [Gen.AtmConsts.layers]) (by simp [Gen.AtmConsts.layers])
         (by intro k' h1 h2; simp [Gen.AtmConsts.layers] at h2; omega)]
-    have hinf : (Gen.AtmConsts.layers inf).inf = inf := rfl
+    have hinf : (𝕃 inf).inf = inf := rfl
     simp only [pressureFromAltitude, hinf, ltb_eq, lt_irrefl, if_false, hsel]
     simp [Gen.AtmConsts.layers, nth]
   · exact altitude_of_zero _ 0 le_rfl
@@ -345,5 +1236,9 @@ theorem zero_inf (inf : ℝ) :
 pressure condition, and the table hypotheses are satisfiable (they hold for the shipped table) -/
 example : WellFormed (Gen.AtmConsts.layers 7000) 8 := generated_wellFormed 7000 (by norm_num)
 example : pressureFromAltitude (Gen.AtmConsts.layers (7000:ℝ)) 7000 = 0 := (zero_inf 7000).1
+/-- the pressure range of `inverse_forward_1e6` is not empty: the pressure of the model top itself qualifies -/
+example : ∃ P : ℝ, pressureFromAltitude (Gen.AtmConsts.layers (7000:ℝ)) 120 ≤ P ∧ P ≤ 101325 := by
+  refine ⟨_, le_rfl, le_trans (model_top 7000 (by norm_num)).2.2.2 ?_⟩
+  simp [Gen.AtmConsts.layers, nth] <;> norm_num
 
 end C19
